@@ -169,3 +169,36 @@ def bookmark_cursor(ctx, P, rule="ORDER-BOOKMARK"):
             ok = bool(inits) and all("metadata_offset[start]" in r for r in inits)
             ctx.ob(rule, "%s|%s-init" % (name, cur), ok, tu.loc(fn.node),
                    "`%s` initialised with %s" % (cur, inits))
+
+
+def memcpy_alias(ctx, P, rule="MEMCPY-ALIAS", tus=("tables",)):
+    ctx.rule(rule, "no tsk_memcpy copies within one table column (destination and source based on the same column path): permuting "
+                   "rows in place must read from the saved copy, otherwise earlier writes clobber later sources")
+    from sa.expr import local_aliases
+    n = 0
+    for key in tus:
+        tu = P.tus[key]
+        for fn in tu.funcs.values():
+            al = None
+            k = 0
+            for c in walk(fn.body):
+                if c.k == "CallExpr" and callee(c) == "tsk_memcpy":
+                    al = al or local_aliases(fn)
+                    def base(e):
+                        e = strip(e)
+                        while e is not None and e.k == "BinaryOperator" and e.op in ("+", "-"):
+                            e = strip(e.kids[0])
+                        if e is not None and e.k == "UnaryOperator" and e.op == "&":
+                            e = strip(e.kids[0])
+                            while e is not None and e.k == "ArraySubscriptExpr":
+                                e = strip(e.kids[0])
+                        return xstr(e, al) if e is not None else ""
+                    d, s = base(c.kids[1]), base(c.kids[2])
+                    if not d or not s:
+                        continue
+                    n += 1
+                    ok = d != s
+                    ctx.ob(rule, "%s@%d" % (fn.name, k), ok, tu.loc(c), "memcpy(%s…, %s…)" % (d, s) if ok else
+                           "tsk_memcpy reads and writes the same column `%s`" % d)
+                    k += 1
+    return n
